@@ -2,7 +2,7 @@ from dataclasses import dataclass
 
 from xdsl.context import Context
 from xdsl.dialects import builtin, scf
-from xdsl.ir import OpResult, SSAValue
+from xdsl.ir import Operation, OpResult, SSAValue
 from xdsl.passes import ModulePass
 from xdsl.pattern_rewriter import (
     GreedyRewritePatternApplier,
@@ -187,6 +187,19 @@ class HoistSetupCallsIntoConditionals(RewritePattern):
         # grab some helper vars
         old_in_state = op.in_state
         assert isinstance(old_in_state, OpResult)
+
+        # Step 0: Check that all values we set up are available inside the scf.if,
+        # i.e. they are not computed by the scf.if itself or by an operation after it
+        if_op = op.in_state.owner
+        if_block = if_op.parent_block()
+        if if_block is not None:
+            for val in op.values:
+                if (
+                    isinstance(val.owner, Operation)
+                    and val.owner.parent_block() is if_block
+                    and if_block.get_operation_index(val.owner) >= if_block.get_operation_index(if_op)
+                ):
+                    return
 
         # Step 1: Check that it's legal to move:
         # grab all launch op uses of the SSA value produced by the scf.if
